@@ -36,6 +36,7 @@ class World:
         self.case = case
         self.S = G.Setup(case["setup"])
         self.src, self.flt, self.sp = case["config"]
+        self.verbose = bool(case.get("verbose"))    # progress output on: same results
         self.tmpdir = tmpdir
         S = self.S
         # raw catalogs: entries [k, m, kind] kind: "in" | "outside" | "below" | "early"
@@ -138,16 +139,16 @@ def run_op(W, fc, op):
                 raise PassDidNotTerminate("one pass yielded more than %d catalogs (forecast has %d)" % (20 * (W.n + 1), W.n))
         return out
     if op == "event_counts":
-        return numpy.array(fc.get_event_counts(verbose=False)).tolist()
+        return numpy.array(fc.get_event_counts(verbose=W.verbose)).tolist()
     if op == "expected_rates":
-        er = fc.get_expected_rates()
+        er = fc.get_expected_rates(verbose=W.verbose)
         return None if er is None else numpy.array(er.data, dtype=float)
     if op == "spatial_counts":
         return numpy.array(fc.spatial_counts(), dtype=float)
     if op == "magnitude_counts":
         return numpy.array(fc.magnitude_counts(), dtype=float)
     f = {"n_test": CE.number_test, "s_test": CE.spatial_test, "m_test": CE.magnitude_test, "pl_test": CE.pseudolikelihood_test}[op]
-    return result_key(f(fc, W.observation(), verbose=False))
+    return result_key(f(fc, W.observation(), verbose=W.verbose))
 
 
 class Session:
@@ -291,7 +292,7 @@ def cases(draw):
     if not any(k == "in" for c in cats for _, _, k in c):
         cats[0].append([0, 0, "in"])
     ops = draw(st.lists(st.sampled_from(OPS), min_size=1, max_size=8))
-    return {"setup": setup, "cats": cats, "config": list(config), "ops": ops}
+    return {"setup": setup, "cats": cats, "config": list(config), "ops": ops, "verbose": draw(st.integers(0, 3)) == 0}
 
 
 def run_machine(ctx, max_examples, steps):
